@@ -92,10 +92,19 @@ fn gen_pair(rng: &mut Rng, nfiles: usize, big: bool) -> String {
     let mut b: Vec<String> = vec![];
     let mut used: Vec<String> = vec![];
     let mut bigs = 0;
+    let mut sibling: Option<String> = None;
     for _ in 0..nfiles {
-        let p = rel_path(rng);
+        // a sibling whose name is an earlier file's name plus a suffix a tool would use for its own
+        // scratch / backup file (`f0` beside `f0.tmp`, `f0~`, `f0.bak` …): both are ordinary files
+        let p = match sibling.take() {
+            Some(q) => q,
+            None => rel_path(rng),
+        };
         if used.contains(&p) {
             continue;
+        }
+        if rng.chance(1, 4) && !p.ends_with('/') {
+            sibling = Some(format!("{}{}", p, rng.pick(&[".tmp", ".bak", "%7e", ".new", ".old", ".part", ".lock", ".0", ".orig", ".swp"])));
         }
         used.push(p.clone());
         let allow_big = big && bigs < 2;
